@@ -22,6 +22,9 @@ RULE = ("TLC enumerates the schedule families of SenderEnv.tla (every configurat
         "stop or file change.")
 
 PROPS = {
+    # C01 at level L2 (the stage engine decides C01 on the receiver alone; this adds whole transfers in which
+    # the source file changes size and content while it is being sent)
+    "C01": {"families": ["resize!"], "formulas": ["P_C01_FinalIsVersion", "P_C01_LoggedHash"]},
     "C02": {"families": ["changes2", "changes3", "changes", "crashes", "faulty", "plain"],
             "formulas": ["P_C02_Release", "P_C02_NoFalsePositive"]},
     "C03": {"families": ["faulty", "crashes", "plain", "changes", "changes2"],
@@ -117,11 +120,18 @@ def scenario_of(last):
     return None, H
 
 
-def check(ctx, replay=None):
+def check(ctx, replay=None, part_of=None):
+    """part_of: this run is the L2 part of another engine's check (its rule text); no level change, no finish here"""
     P = PROPS[ctx.prop]
+    if part_of:
+        return l2(ctx, P, replay, part_of)
     # C16 also has a design model (Sender.tla) whose interleavings TLC explores exhaustively
     ctx.level = "model_checking" if ctx.prop == "C16" else "fault_enumeration"
     ctx.exhaustive = False
+    return l2(ctx, P, replay, None)
+
+
+def l2(ctx, P, replay, part_of):
     build_harness(ctx)
     consts = constants()
     rnd = random.Random(ctx.seed)
@@ -134,9 +144,11 @@ def check(ctx, replay=None):
         per = QUICK_PER_FAMILY if ctx.tier == "quick" else THOROUGH_PER_FAMILY
         fam_sizes = {}
         for fam in P["families"]:
+            whole = fam.endswith("!")          # a family that is executed completely in every tier
+            fam = fam.rstrip("!")
             allf = gen_family(ctx, fam)
             fam_sizes[fam] = len(allf)
-            pick = allf if len(allf) <= per else rnd.sample(allf, per)
+            pick = allf if whole or len(allf) <= per else rnd.sample(allf, per)
             for s in pick:
                 s = dict(s)
                 s["fam"] = fam
@@ -152,7 +164,7 @@ def check(ctx, replay=None):
         for i, s in enumerate(scns):
             s["id"] = i + 1
         ctx.notes["families"] = fam_sizes
-        ctx.exhaustive = all(n <= per for n in fam_sizes.values())
+        ctx.exhaustive = (not part_of) and all(n <= per for n in fam_sizes.values())
         ctx.notes["executed"] = len(scns)
     if ctx.prop == "C16" and not replay:
         sender_design(ctx)
@@ -197,8 +209,10 @@ def check(ctx, replay=None):
     if not ctx.violations and not replay:
         tr = allres[0][0]
         lines = open(tr).read().splitlines()
-        ctx.samples = [json.loads(x) for x in lines[:1]] + [json.loads(x) for x in lines if '"op":"transmit"' in x][:2]
-        ctx.notes["distinct_nontrivial"] = sum(1 for s in scns if s.get("steps") or s.get("faults") or s.get("oneshot"))
+        ctx.samples = (ctx.samples[:3] if part_of else []) + [json.loads(x) for x in lines[:1]] + \
+            [json.loads(x) for x in lines if '"op":"transmit"' in x][:2]
+        ctx.notes["distinct_nontrivial"] = (ctx.notes.get("distinct_nontrivial", 0) if part_of else 0) + \
+            sum(1 for s in scns if s.get("steps") or s.get("faults") or s.get("oneshot"))
         # open findings: does the exempted behaviour still occur on the real code?
         texts = {"S23": "S23 a file whose announced predecessor was deleted at the source before it was sent is held by the "
                         "receiver for ever (the sender is told 'waiting' and releases it)",
@@ -212,9 +226,10 @@ def check(ctx, replay=None):
                     res = validate_traces(ctx, "SenderTrace", tr, c2, ["P_C03_Delivered"], spec="Spec", parts=8, heap="3g")
                     if any(r.violated for _, _, _, r in res):
                         ctx.known.append(texts[fid])
-    ctx.assumptions = ["the Broker runs with real goroutines: each schedule is one observed interleaving (thorough runs every "
+    ctx.assumptions = (ctx.assumptions if part_of else []) + [
+                      "the Broker runs with real goroutines: each schedule is one observed interleaving (thorough runs every "
                        "schedule twice); the environment acts at interface-call indices, not at arbitrary instructions",
                        "verdicts that depend on how long the harness waited (termination, delivery at the end) count only when "
                        "they reproduce with the schedule run alone",
                        "one clean interval of the receiver elapses before the end state is taken (wait loops are broken there)"]
-    return finish(ctx, RULE)
+    return finish(ctx, part_of + " PLUS (L2) " + RULE if part_of else RULE)
